@@ -234,6 +234,8 @@ fn main() {
                                   automerge::TextEncoding::GraphemeCluster, automerge::TextEncoding::UnicodeCodePoint][i % 4],
                     "grapheme" => automerge::TextEncoding::GraphemeCluster,
                     "cursortext" => [automerge::TextEncoding::Utf16CodeUnit, automerge::TextEncoding::UnicodeCodePoint][i % 2],
+                    // text widths are part of the shape anonymize must keep: every encoding
+                    "anontext" => [automerge::TextEncoding::Utf8CodeUnit, automerge::TextEncoding::UnicodeCodePoint, automerge::TextEncoding::Utf16CodeUnit][i % 3],
                     _ => automerge::TextEncoding::UnicodeCodePoint,
                 };
                 let iv = |k: &str, s: &str, n: i64| json!({"k":k,"s":s,"n":n,"toks":[]});
